@@ -534,6 +534,8 @@ def check_kani(prop, tier, seed, only=None, jobs=None, extra_results=None):
         pb = [p for p in r.playback if p["kind"] != "cover" and any(d.strip('"') in p["desc"] or p["desc"].strip('"') in d for d in descs)]
         if not pb:
             pb = [p for p in r.playback if p["kind"] != "cover"]
+        if h.replay == "native" and not pb and not extraction:
+            extraction = "Kani printed no concrete-playback test for the failed check"
         rp = os.path.join(REPLAY_DIR, prop, h.name + ".rs")
         reproduced, rep_info = None, {}
         if h.replay == "native" and pb:
